@@ -125,6 +125,10 @@ func genC20Plan(r *zsim.Rng) *sysPlan {
 			ps.Text = "partial-no-newline"
 			ps.Exit = 1
 		}
+		if !ps.Endless && !ps.StartErr && r.Chance(1, 5) {
+			// the output ends (the command closes it) but the process stays for a long time
+			ps.LingerMs = []int{3000, 20000, 60000}[r.Intn(3)]
+		}
 		ps.Fork = r.Chance(1, 3)
 		p.Procs = append(p.Procs, ps)
 	}
@@ -182,7 +186,7 @@ func runC20(c *runCtx) {
 			ps = plan.Procs[r.genSeq["PV"]%len(plan.Procs)]
 		}
 		r.genSeq["PV"]++
-		sc := simos.Script{StartErr: ps.StartErr, Endless: ps.Endless, ExitCode: ps.Exit, Fork: ps.Fork}
+		sc := simos.Script{StartErr: ps.StartErr, Endless: ps.Endless, ExitCode: ps.Exit, Fork: ps.Fork, LingerMs: clampInt(ps.LingerMs, 0, 120000)}
 		// text split into chunks of lines
 		lines := strings.SplitAfter(ps.Text, "\n")
 		if len(lines) > 0 && lines[len(lines)-1] == "" {
